@@ -15,6 +15,10 @@ TRANSITIONS = {
 }
 
 
+def _tuple3(pr):
+    return ("field", "()", "3") in pr
+
+
 def run(ctx):
     run = ctx.run
     db = ctx.db
@@ -219,6 +223,32 @@ def run(ctx):
         run.instance(R4, {"fn": "find_reverted_kernels", "obligation": "only TxReceived entries are candidates"}, held=held)
         if not held:
             run.finding(Finding(R4, fr.id, "reverted-kernel candidates are no longer restricted to TxReceived", site=fr.loc()))
+    if fr:
+        # a transaction becomes a revert candidate only for an output that WAS unspent and IS absent from the node's answer
+        early_ins = [b for b, t in fr.calls() if ("HashSet::" in (t.get("f") or "") and (t.get("f") or "").endswith("::insert")) and not (gk and b in cfg.reach(fr, starts=[fr.bbs[gk[0][0]]["t"]["t"]]))]
+        ck = [(b, t) for b, t in fr.calls() if "HashMap::" in (t.get("f") or "") and (t.get("f") or "").endswith("::contains_key")]
+        held = len(early_ins) == 1 and len(ck) == 1
+        if held:
+            ib = {early_ins[0]}
+            g_ck = cfg.call_guard(fr, ck[0][0])
+            absent = bool(g_ck.fail) and cfg.must_pass(fr, g_ck.fail, ib)[0]
+            wu = False
+            for l in range(1, len(fr.locals)):
+                if fr.locals[l]["ty"] != "bool":
+                    continue
+                pr = vf.producers(fr, {"c": [l, []]})
+                if _tuple3(pr):
+                    g_l = cfg.local_guard(fr, l)
+                    if g_l.ok and cfg.must_pass(fr, g_l.ok, ib)[0]:
+                        wu = True
+            held = absent and wu
+            run.instance(R4, {"fn": "find_reverted_kernels", "obligation": "candidate only if (was unspent) and (absent from the node's answer)", "absent_guard": absent, "was_unspent_guard": wu}, held=held)
+        else:
+            run.instance(R4, {"fn": "find_reverted_kernels", "obligation": "one candidate insertion guarded by one contains_key test", "insertions": len(early_ins), "contains_key": len(ck)}, held=False)
+        if not held:
+            run.finding(Finding(R4, fr.id, "a transaction can become a revert candidate without its output having been unspent and now absent from the node", site=fr.loc()))
+    from .shared import was_unspent_flag
+    was_unspent_flag(ctx, R4)
     R5 = "C18.R5"
     run.rule(R5, "a refresh at an unchanged tip still applies the node's answer (the give-up test is strictly 'node behind wallet')", floor=1)
     from .shared import refresh_not_skipped
